@@ -206,32 +206,17 @@ def check(ctx):
             if any(o[0] == "class" and o[1] is callc for o in m.callee_origins(f, c)):
                 n_ctor += 1
                 sfarg = arg(c, None, "stack_frame")
-                ok = sfarg is not None and isinstance(sfarg, ast.Name) and sfarg.id in f.params
+                ok = sfarg is not None and ((isinstance(sfarg, ast.Name) and sfarg.id in f.params) or
+                                            (isinstance(sfarg, ast.Attribute) and isinstance(sfarg.value, ast.Name) and f.pos_params
+                                             and sfarg.value.id == f.pos_params[0] and f.cls is not None))
                 ctx.ob("C19.S2", f"{f.short}/Call-frame", ok, loc(f, c), "Call(...) receives its creator's frame parameter" if ok else
                        "Call(...) is constructed without the frame handed to its creator", norm(c)[:100])
     ctx.floor("C19.S2", "Call constructions", n_ctor, 1)
     pcall = m.method("Plan", "_call", "CALLCTOR")
-    n_sites = 0
-    for f in m.funcs.values():
-        for c in f.own_calls():
-            if pcall in m.callee_funcs(f, c) and isinstance(c.func, ast.Attribute) and c.func.attr == "_call":
-                n_sites += 1
-                a0 = c.args[0] if c.args else None
-                ok, why = False, "frame argument not recognised"
-                if isinstance(a0, ast.Call) and gsf in m.callee_funcs(f, a0):
-                    ok, why = True, "frame captured in this API method"
-                elif isinstance(a0, ast.Name):
-                    scope = m.binding_scope(f, a0.id)
-                    bs = scope.bindings.get(a0.id, []) if scope is not None else []
-                    if any(k == "param" for k, _e, _p in bs):
-                        ok, why = True, "creator's own frame parameter"
-                    elif bs and all(k == "assign" and isinstance(e, ast.Call) and gsf in m.callee_funcs(scope, e) for k, e, _p in bs):
-                        ok, why = True, "one frame captured in this API method, shared by all calls it creates"
-                elif isinstance(a0, ast.Attribute) and a0.attr == "stack_frame":
-                    ok, why = True, "the registry entry's frame"
-                ctx.ob("C19.S2", f"{f.short}/_call-frame", ok, loc(f, c), why if ok else
-                       f"`{norm(a0) if a0 is not None else ''}` is passed as frame: the created call is attributed to the wrong line", norm(c)[:100])
-    ctx.floor("C19.S2", "_call sites", n_sites, 6)
+    # which frame the created calls carry: evaluated through the public methods (one capture, shared by every created call)
+    from .evalrules import rule_frames_of_created_calls
+    er_ = E.discover(m)
+    ctx.run(rule_frames_of_created_calls, "C19.S2", R.discover(m, er_))
     # ---------------------------------------------------------------- S3
     radd, rsrc = m.method("Registry", "add", "S3"), m.method("Registry", "source", "S3")
     rv = [c for c in radd.own_calls() if any(o[0] == "class" and o[1].name == "RegistryValue" for o in m.callee_origins(radd, c))]
